@@ -135,6 +135,46 @@ pub fn run_stream<R: Read>(mut r: R, bufsize: usize, zero: bool) -> Result<RObs,
     })
 }
 
+/// Streaming route where the caller takes only the first `k` bytes of every entry and then releases it: the reader
+/// has to skip the rest by itself, whatever the underlying stream does.
+pub fn run_stream_partial<R: Read>(mut r: R, k: usize) -> Result<RObs, String> {
+    guard(|| {
+        let mut o = RObs { open: Ok(()), comment: vec![], entries: vec![] };
+        loop {
+            match zip::read::read_zipfile_from_stream(&mut r) {
+                Ok(Some(mut f)) => {
+                    let meta = (f.name().to_string(), f.size(), f.compressed_size(), f.crc32(), method_id(f.compression()), f.last_modified().datepart(), f.last_modified().timepart(), f.header_start(), f.central_header_start(), f.data_start(), f.unix_mode());
+                    let mut buf = vec![0u8; k];
+                    let mut got = 0;
+                    let mut res = Ok(());
+                    while got < k {
+                        match f.read(&mut buf[got..]) {
+                            Ok(0) => break,
+                            Ok(n) => got += n,
+                            Err(e) if e.kind() == std::io::ErrorKind::Interrupted => continue,
+                            Err(e) => {
+                                res = Err(e.to_string());
+                                break;
+                            }
+                        }
+                    }
+                    buf.truncate(got);
+                    o.entries.push(EObs { meta, content: res.map(|_| buf), post_eof_zero: true });
+                }
+                Ok(None) => break,
+                Err(e) => {
+                    o.entries.push(EObs { meta: Default::default(), content: Err(format!("next entry: {e}")), post_eof_zero: false });
+                    break;
+                }
+            }
+            if o.entries.len() > 16 {
+                break;
+            }
+        }
+        o
+    })
+}
+
 #[derive(Clone)]
 pub struct Scn {
     pub label: String,
@@ -393,6 +433,25 @@ fn replay(case: &Value, st: &mut Stats, seed: u64) {
     let big = case["big"].as_u64().unwrap_or(700) as usize;
     let scns = scenarios(seed, big);
     let Some(s) = scns.iter().find(|s| s.label == case["scenario"].as_str().unwrap_or("")) else { return };
+    if case["route"] == "stream-partial" {
+        let k = case["take"].as_u64().unwrap_or(0) as usize;
+        let p: PlanRef = plan();
+        if let Some(c) = case["frag"]["chunk"].as_u64() {
+            p.borrow_mut().chunk = Some(c as usize);
+        }
+        if let Some(v) = case["frag"]["cuts"].as_array() {
+            p.borrow_mut().cuts = v.iter().filter_map(|x| x.as_u64()).collect();
+        }
+        let inst = InstRead { inner: Inst::new(s.bytes.clone(), p) };
+        let got = match case["frag"]["bufreader"].as_u64() {
+            Some(c) => run_stream_partial(BufReader::with_capacity(c as usize, inst), k),
+            None => run_stream_partial(inst, k),
+        };
+        if got != run_stream_partial(std::io::Cursor::new(&s.bytes[..]), k) {
+            st.viol("reader/partial-consumption", "the partially consumed stream differs from the unfragmented run", case.clone(), 0);
+        }
+        return;
+    }
     let stream = case["route"] == "stream";
     let frag = if let Some(a) = case["frag"]["interrupt"].as_array() {
         Frag::Interrupt { chunk: a[0].as_u64().unwrap_or(0) as usize, at: a[1].as_u64().unwrap_or(0) }
@@ -426,7 +485,7 @@ pub fn run(args: &Args) -> i32 {
         "E-DEV over fragmentation schedules, differential against the 0-deviation run (which is itself required to return the written content). Reader: 7 archives \
          (stored+deflated, bzip2+zstd, ZipCrypto x2, AE-1, AE-2, prefixed+ZIP64), entries of 40 and {big} bytes; seekable route for all, streaming route for the two plain ones. \
          Deviations: every uniform chunk limit in 1..=17 and {{4095,4096,4097}} and std BufReader capacities {{1,7,64}} x caller buffers {{1,2,3,7,64,4096,read_to_end}} x empty reads {{no,yes}}; \
-         a retryable ErrorKind::Interrupted at every read call (plain and with 5-byte underlying reads; callers retry as std does), and at every write call on the writer side; ONE cut at EVERY byte position of every archive x caller buffers {{1,7,read_to_end}}; all PAIRS of cut positions (bound 2) on a 40+60-byte archive. After EOF three more reads must return 0. \
+         a retryable ErrorKind::Interrupted at every read call (plain and with 5-byte underlying reads; callers retry as std does), and at every write call on the writer side; ONE cut at EVERY byte position of every archive x caller buffers {{1,7,read_to_end}}; all PAIRS of cut positions (bound 2) on a 40+60-byte archive. After EOF three more reads must return 0. Streaming route also with every entry released after 0/1/10/41 bytes (the reader skips the rest) under 9 chunk limits, 3 BufReader capacities and one cut at every (quick: every 5th) position. \
          Writer: 12 programs; sink accepting at most c bytes per write for the same c set; one short write at every write-call index with 1, n/2, n-1 bytes accepted: sink bytes must be identical; \
          caller splitting a 700-byte content at every position and in uniform pieces 1..17: archive must decode to the same entries. distinct_nontrivial = distinct (scenario, route, schedule, caller pattern) tuples (counted; never repeated)."
     );
@@ -568,6 +627,67 @@ pub fn run(args: &Args) -> i32 {
         }
     });
     ctx.stats.merge(s);
+    // streaming route, entries released after 0 / 1 / 10 / 41 bytes: the skip of the rest must not depend on the chunking either
+    {
+        let mut pitems: Vec<(usize, usize, Frag)> = vec![];
+        for (si, s) in scns.iter().enumerate() {
+            if !s.stream {
+                continue;
+            }
+            for k in [0usize, 1, 10, 41] {
+                for c in [1usize, 2, 3, 7, 64, 4095, 4096, 65535, 65536] {
+                    pitems.push((si, k, Frag::Chunk(c)));
+                }
+                for c in [1usize, 7, 64] {
+                    pitems.push((si, k, Frag::BufReader(c)));
+                }
+                // one cut at every position of the archive (every 5th in the quick tier)
+                let mut p = 1u64;
+                while p < s.bytes.len() as u64 {
+                    pitems.push((si, k, Frag::Cuts(vec![p])));
+                    p += if thorough { 1 } else { 5 };
+                }
+            }
+        }
+        counted += pitems.len() as u64;
+        let (scns_r, pitems_r) = (&scns, &pitems);
+        let s = par_for(pitems.len() as u64, 8, |t, st| {
+            let (si, k, frag) = &pitems_r[t as usize];
+            let s = &scns_r[*si];
+            st.evals += 1;
+            let base = run_stream_partial(std::io::Cursor::new(&s.bytes[..]), *k);
+            let p: PlanRef = plan();
+            p.borrow_mut().record_kinds = false;
+            match frag {
+                Frag::Chunk(c) => p.borrow_mut().chunk = Some(*c),
+                Frag::Cuts(v) => p.borrow_mut().cuts = v.clone(),
+                _ => {}
+            }
+            let inst = InstRead { inner: Inst::new(s.bytes.clone(), p) };
+            let got = match frag {
+                Frag::BufReader(c) => run_stream_partial(BufReader::with_capacity(*c, inst), *k),
+                _ => run_stream_partial(inst, *k),
+            };
+            let case = json!({"scenario": s.label, "route": "stream-partial", "take": k, "fragmentation": frag.describe(), "big": BIG.load(std::sync::atomic::Ordering::Relaxed),
+                "frag": match frag { Frag::Chunk(c) => json!({"chunk": c}), Frag::Cuts(v) => json!({"cuts": v}), Frag::BufReader(c) => json!({"bufreader": c}), Frag::Interrupt { chunk, at } => json!({"interrupt": [chunk, at]}) }});
+            match (base, got) {
+                (Ok(b), Ok(g)) if b == g && b.entries.len() == 2 && b.entries.iter().all(|e| e.content.is_ok()) => st.class(&format!("same-as-unfragmented/stream-partial/{}", frag.class())),
+                (Ok(b), Ok(g)) if b == g => st.viol("machinery/partial-baseline", format!("{}: the unfragmented partial run is not clean", s.label), case, (3 << 50) + t),
+                (_, Err(pn)) | (Err(pn), _) => st.viol(format!("panic/stream-partial/{}", panic_site(&pn)), format!("{}: {pn}", s.label), case, (3 << 50) + t),
+                (Ok(b), Ok(g)) => {
+                    st.class("DIFFERS");
+                    let i = g.entries.iter().zip(&b.entries).position(|(x, y)| x != y).unwrap_or(g.entries.len().min(b.entries.len()));
+                    st.viol(
+                        format!("reader/partial-consumption/{}/stream/{}", s.label, frag.class()),
+                        format!("{} via the streaming reader, {k} bytes taken from every entry, {}: entry {i} is {:?}, with an unfragmented stream {:?}", s.label, frag.describe(), g.entries.get(i).map(|e| (&e.meta.0, e.content.as_ref().map(|c| c.len()).map_err(|e| e.clone()))), b.entries.get(i).map(|e| (&e.meta.0, e.content.as_ref().map(|c| c.len()).map_err(|e| e.clone())))),
+                        case,
+                        (3 << 50) + t,
+                    );
+                }
+            }
+        });
+        ctx.stats.merge(s);
+    }
     crate::diag!("  [C09] reader side done at {:.1}s ({} schedules)", ctx.elapsed(), items.len());
 
     // writer side
